@@ -672,6 +672,12 @@ func runVF14(p *Prog, r *RuleRun) {
 					excl = append(excl, x)
 				case eventName(x) == "types.SegmentFiler.Open" || eventName(x) == "types.SegmentFiler.RecoverTail":
 					keep = append(keep, x)
+				case x.Call.StaticCallee() != nil && pkgRelOf(p, x.Call.StaticCallee()) == "" && x.Call.StaticCallee().Blocks != nil &&
+					p.reaches(x.Call.StaticCallee(), func(ci ssa.CallInstruction) bool {
+						n := eventName(ci)
+						return n == "types.SegmentFiler.Open" || n == "types.SegmentFiler.RecoverTail"
+					}):
+					keep = append(keep, x) // a helper of Open that opens / recovers the segment
 				}
 			case *ssa.MapUpdate:
 				if fieldLoadName(x.Key) == "ID" {
